@@ -106,7 +106,17 @@ class Snapshot:
         """
         self.capture = capture
 
-        args = list(inspect.signature(capture).parameters.keys())  # type: List[str]
+        signature = inspect.signature(capture)
+        args = list(signature.parameters.keys())  # type: List[str]
+
+        # Names of the mandatory arguments of the capture, analogous to ``mandatory_args`` of a condition.
+        # (Mind that a snapshot without a name still needs a capture with exactly one argument, with or without
+        # a default value, since the argument gives the name to the snapshot.)
+        self.mandatory_args = [
+            arg_name
+            for arg_name, param in signature.parameters.items()
+            if param.default is inspect.Parameter.empty
+        ]
 
         if name is None:
             if len(args) == 0:
